@@ -115,6 +115,9 @@ pub fn generate(
         }
     };
 
+    #[cfg(lexgen_verif)]
+    crate::verif::emit(&format!("INLINED {}", ctx.verif_inlined()));
+
     let match_arms = generate_state_arms(&mut ctx, dfa);
 
     let switch_method = generate_switch(&ctx, &rule_name_enum_name);
@@ -320,6 +323,9 @@ fn generate_switch(ctx: &CgCtx, enum_name: &syn::Ident) -> TokenStream {
     for (rule_name, state_idx) in ctx.rule_states().iter() {
         let StateIdx(state_idx) = ctx.renumber_state(*state_idx);
         let rule_ident = syn::Ident::new(rule_name, Span::call_site());
+
+        #[cfg(lexgen_verif)]
+        crate::verif::emit(&format!("SWITCH {} {}", rule_name, state_idx));
         arms.push(quote!(
             #enum_name::#rule_ident =>
                 self.0.__state = #state_idx
@@ -361,12 +367,22 @@ fn generate_state_arms(
 
         let state_code: TokenStream = generate_state(ctx, state_idx, state, &states);
 
+        #[cfg(lexgen_verif)]
+        let verif_orig_state_idx = state_idx;
+
         let StateIdx(state_idx) = ctx.renumber_state(StateIdx(state_idx));
         let state_idx_pat = if state_idx == n_states - ctx.n_inlined_states() - 1 {
             quote!(_)
         } else {
             quote!(#state_idx)
         };
+
+        #[cfg(lexgen_verif)]
+        crate::verif::emit(&format!(
+            "ARM {} {}",
+            verif_orig_state_idx,
+            state_idx_pat.to_string().replace("usize", "")
+        ));
 
         match_arms.push(quote!(
             #state_idx_pat => { #state_code }
